@@ -49,7 +49,7 @@ structure Chan where
 inductive Plan where
   | noDefuse        -- the stream goes to the parser unchecked
   | rewind          -- defuse_xml(fp): scan, then fp.seek(0)
-  | wrapRaw         -- defuse_xml: io.BufferedReader(fp), scan, seek(0)
+  | wrapRaw         -- defuse_xml: DefusableReader(io.BufferedReader(fp)), scan, seek(0)   (repaired, C13-F1)
   | wrapBuffered    -- defuse_xml: DefusableReader(fp), scan, seek(0)
   | secondOpen      -- a second stream is opened from the URL and scanned (rewind=False)
   | refuse          -- XMLResourceOSError "can't defuse ... not seekable"
@@ -157,7 +157,9 @@ def outcome (pl : Plan) (mustRefuse : Bool) (scanEnd bufLen : Nat) : Outcome :=
   | .noDefuse => .parsed
   | .rewind => if mustRefuse then .forbidden else .parsed
   | .secondOpen => if mustRefuse then .forbidden else .parsed
-  | .wrapRaw => if mustRefuse then .forbidden else .oserror       -- BufferedReader.seek(0) on a non-seekable raw
+  | .wrapRaw                 -- REPAIRED behaviour (notes/fixes/C13-raw-stream-defusable-reader.patch): as buffered.
+                             -- The current tree hands io.BufferedReader(fp) to the scan and cannot rewind it:
+                             -- every clean document ends in .oserror there (known finding C13-F1).
   | .wrapBuffered =>
     if mustRefuse then .forbidden
     else if bufLen < scanEnd then .oserror else .parsed             -- Reader.seek 0 after the scan
